@@ -48,6 +48,15 @@ class C12(InvProp):
 
     def corpus(self):
         out = []
+        # every node enables its own application and negates everybody else's: a pending negation
+        # left behind by one render must never reach another node
+        for n in (3, 8):
+            files = [{"path": "nodes/d%d.yml" % i, "content": {"applications": ["app%d" % i] + ["~app%d" % j for j in range(n) if j != i]}} for i in range(n)]
+            out.append({"op": "inventory", "config": {}, "files": files, "repeat": 2})
+        files = [{"path": "classes/neg.yml", "content": {"applications": ["~shared", "~other"]}},
+                 {"path": "nodes/a.yml", "content": {"classes": ["neg"]}}, {"path": "nodes/b.yml", "content": {"applications": ["shared"]}},
+                 {"path": "nodes/c.yml", "content": {"applications": ["other", "shared"]}}, {"path": "nodes/d.yml", "content": {"classes": ["neg"], "applications": ["x"]}}]
+        out.append({"op": "inventory", "config": {}, "files": files, "repeat": 2})
         for c in C13_CLAUSES:
             c = dict(c)
             c["repeat"] = 2
@@ -63,6 +72,11 @@ class C12(InvProp):
                                  node_dirs=r.chance(1, 2), compose=r.chance(1, 2))
             c["repeat"] = 2 if tier == "quick" else 4
             c["repeat_seed"] = r.below(1 << 30)
+            if i % 2 == 0:
+                # cross-node application negations
+                nodes = [f for f in c["files"] if f["path"].startswith("nodes/")]
+                for k, f in enumerate(nodes):
+                    f["content"]["applications"] = ["own%d" % k] + ["~own%d" % j for j in range(len(nodes)) if j != k and r.chance(2, 3)]
             yield c
 
     def judge(self, req, impl, reply):
